@@ -109,7 +109,10 @@ def check(case, ctx):
     # document level (sampled; the middlewares delegate to the functions above)
     doc_ok = not any(w.endswith("\\") for p in pieces for s in R.tokenize(p) for w in s) and "@" not in v and "\\{" not in v and "\\}" not in v
     if not out and doc_ok and (ctx.cases % 12 == 0 or (len(v2) > 70 and ctx.cases % 9 == 0)):
-        for field in ("author", "editor", "translator")[ctx.cases % 3:ctx.cases % 3 + 1]:
+        # rotate on the number of document-level evaluations so far (NOT on ctx.cases: the sampling condition above
+        # makes ctx.cases a multiple of 3, which pinned the field to "author")
+        rot = ctx.monitors["document_inverse"] // 2 % 3
+        for field in ("author", "editor", "translator")[rot:rot + 1]:
             for inplace in (True, False):
                 doc = "@string{s = {x}}\n%% free\n@article{k,\n title = {A {T}itle},\n %s = {%s},\n year = 1999\n}\n@comment{c}\n" % (field, v)
                 mk_parse = lambda: [N.SeparateCoAuthors(allow_inplace_modification=inplace), N.SplitNameParts(allow_inplace_modification=inplace)]  # noqa
@@ -117,6 +120,7 @@ def check(case, ctx):
                 st, l1 = sp.escape(lambda: bibtexparser.parse_string(doc, append_middleware=mk_parse()))
                 ctx.ran()
                 ctx.mon("document_inverse")
+                ctx.state("docfield=" + field)
                 if st == "raise":
                     out.append(Violation("raised", f"C14:doc-parse-raised:{l1.split(':')[0]}", dict(value=v, error=l1)))
                     break
